@@ -79,5 +79,5 @@ def replay(case):
             want = c
     if want is None:
         return set()
-    core._VD = None
+    core.reset_vdrv()
     return {k for k, _, _, _ in judge(work([want]))}
